@@ -131,15 +131,9 @@ fn main() {
         let f7 = ops.iter().any(|o| matches!(o, LOp::Rollback { build_ok: false, .. }));
         let nontrivial = ops.len() >= 4 && ops.iter().any(|o| matches!(o, LOp::DropW { .. })) && codes.iter().any(|c| *c == 1);
         out.coq_case("tie", format!("list_eqb N.eqb (codes (snd (lrun linit {ops_t}))) {codes_t}"), desc.clone(), nontrivial);
-        if f7 {
-            if max_live >= 2 || codes.contains(&5) {
-                out.coq_case("known:F7", format!("f7_class {ops_t}"), json!({"what": "two live writers / lock-less writer after a failed rollback rebuild", "case": desc}), true);
-            }
-            out.count("f7_lifecycles", 1);
-        } else {
-            out.coq_case("spec", format!("list_eqb N.eqb (codes (spec_run None {ops_t})) {codes_t}"), desc.clone(), nontrivial);
-            out.spec_checked(max_live <= 1, json!({"what": "two IndexWriters alive at the same time", "case": desc}));
-        }
+        out.coq_case("spec", format!("list_eqb N.eqb (codes (spec_run None {ops_t})) {codes_t}"), desc.clone(), nontrivial);
+        out.spec_checked(max_live <= 1, json!({"what": "two IndexWriters alive at the same time", "failing_rollback_rebuild_in_history": f7, "case": desc}));
+        if f7 { out.count("lifecycles_with_failing_rollback_rebuild", 1); }
         out.count("lifecycles", 1);
         out.count(["dir_ram", "dir_verif", "dir_mmap"][kind], 1);
     }
